@@ -282,6 +282,81 @@ theorem blocks_wellformed (c : Chain) (w : WF c) (hasBlock : Nat → Bool) (loc 
     exact List.Pairwise.sublist hp.sublist this
   · exact fun x hx => locate_le_stop c w loc stop 0 _ hs sh hsh hh x (hsub x hx)
 
+/-! ### the request handlers (what a peer gets back)
+
+The model of the handlers has no panic outcome: the handlers of `handle.go` never index the
+located slice (`Ties.C33.tie_handlers_do_not_index`, re-extracted from the source on every
+run) and the harness drives the real handlers under `recover` on every request shape. -/
+
+/-- a get-headers request is answered with exactly the located headers, and only when there
+    are some: the message sent is non-empty, ≤ 1000 items, all on the main chain, strictly
+    increasing, not above the stop block -/
+theorem handleGetHeaders_wellformed (c : Chain) (w : WF c) (loc : List Nat) (stop skip : Nat) (l : List Header) (sh : Header)
+    (hsh : c.byHash stop = some sh) (h : handleGetHeaders c loc stop skip = some l) :
+    locateHeaders c loc stop skip maxNumOfHeadersPerMsg = .ok l ∧ l ≠ [] ∧ l.length ≤ 1000 ∧
+    (∀ x ∈ l, inMain c x.id = true) ∧ incr l ∧ (∀ x ∈ l, x.height ≤ sh.height) := by
+  unfold handleGetHeaders at h
+  split at h
+  · rename_i x r hl
+    cases h
+    exact ⟨hl, by simp,
+      locate_length c loc stop skip _ _ (by decide) (by decide) hl,
+      locate_on_main c w loc stop skip _ _ hl, locate_increasing c w loc stop skip _ _ hl,
+      locate_le_stop c w loc stop skip _ _ sh hsh hl⟩
+  · cases h
+
+/-- nothing is sent exactly when locating fails or finds nothing -/
+theorem handleGetHeaders_none (c : Chain) (loc : List Nat) (stop skip : Nat) :
+    handleGetHeaders c loc stop skip = none ↔
+      (locateHeaders c loc stop skip maxNumOfHeadersPerMsg = .err ∨ locateHeaders c loc stop skip maxNumOfHeadersPerMsg = .ok []) := by
+  unfold handleGetHeaders
+  split
+  · rename_i x r hl; simp [hl]
+  · rename_i hne
+    simp only [true_iff]
+    cases hl : locateHeaders c loc stop skip maxNumOfHeadersPerMsg with
+    | err => exact Or.inl rfl
+    | ok items =>
+      cases items with
+      | nil => exact Or.inr rfl
+      | cons x r => exact absurd hl (hne x r)
+
+/-- a get-blocks request is answered with a prefix (size budget) of a NON-EMPTY located result:
+    ≤ 64 items, all on the main chain, strictly increasing, not above the stop block -/
+theorem handleGetBlocks_wellformed (c : Chain) (w : WF c) (hasBlock : Nat → Bool) (loc : List Nat) (stop tmo fits : Nat)
+    (l : List Header) (sh : Header) (hsh : c.byHash stop = some sh)
+    (h : handleGetBlocks c hasBlock loc stop tmo fits = some l) :
+    (∃ bs, locateBlocks c hasBlock loc stop tmo = .ok bs ∧ bs ≠ [] ∧ l <+: bs) ∧ l.length ≤ 64 ∧
+    (∀ x ∈ l, inMain c x.id = true) ∧ incr l ∧ (∀ x ∈ l, x.height ≤ sh.height) := by
+  unfold handleGetBlocks at h
+  split at h
+  · rename_i x r hl
+    cases h
+    have ⟨b1, b2, b3, b4⟩ := blocks_wellformed c w hasBlock loc stop tmo (x :: r) sh hsh hl
+    have hp : (x :: r).take fits <+: (x :: r) := List.take_prefix _ _
+    have hsub : ∀ y ∈ (x :: r).take fits, y ∈ (x :: r) := fun y hy => hp.subset hy
+    refine ⟨⟨x :: r, hl, by simp, hp⟩, ?_, fun y hy => b2 y (hsub y hy), ?_, fun y hy => b4 y (hsub y hy)⟩
+    · have := hp.length_le; omega
+    · exact List.Pairwise.sublist hp.sublist b3
+  · cases h
+
+/-- a get-block / get-merkle-block request is answered with the main-chain block at the asked
+    height, or the block with the asked hash -/
+theorem handleGetBlock_spec (c : Chain) (w : WF c) (hasBlock : Nat → Bool) (height id : Nat) (x : Header)
+    (h : handleGetBlock c hasBlock height id = some x) :
+    (height ≠ 0 ∧ x.height = height ∧ inMain c x.id = true) ∨ (height = 0 ∧ x.id = id ∧ c.byHash id = some x) := by
+  unfold handleGetBlock at h
+  split at h
+  · rename_i hne
+    exact Or.inl ⟨hne, (w.atHeight _ _ h).1, inMain_of_byHeight w h⟩
+  · rename_i he
+    split at h
+    · rename_i hh hb
+      split at h
+      · cases h; exact Or.inr ⟨by simpa using he, w.byHashId _ _ hb, hb⟩
+      · cases h
+    · cases h
+
 /-! ### the hypotheses are satisfiable on non-trivial values (tests, not proofs of the property) -/
 
 example : WF chain3 ∧ Contiguous chain3 3 := ⟨chain3_wf, by intro i hi; simp [chain3, hi]⟩
@@ -291,6 +366,10 @@ example : locateHeaders (chainOf [(0,0),(1,1),(2,2),(3,3)] [(0,0),(1,1),(2,2),(3
     = .ok [⟨2, 2⟩, ⟨3, 3⟩] := by decide
 example : locateHeaders chain3 [7, 1] 2 0 1000 = .ok [⟨1, 1⟩, ⟨2, 2⟩] := by decide
 example : locateHeaders chain3 [] 2 1 1000 = .ok [⟨0, 0⟩, ⟨2, 2⟩] := by decide
+/-- the round-3 witnesses: requests that locate nothing are dropped (no message) -/
+example : handleGetBlocks chain3 (fun _ => true) [2] 1 100 100 = none := by decide
+example : handleGetHeaders chain3 [2] 1 0 = none := by decide
+example : handleGetBlocks chain3 (fun _ => true) [1] 2 100 100 = some [⟨1, 1⟩, ⟨2, 2⟩] := by decide
 example : locateBlocks chain3 (fun _ => true) [0] 2 1 = .ok [⟨0, 0⟩, ⟨1, 1⟩] := by decide
 
 end BytomModel.Props.C33
